@@ -48,14 +48,14 @@ theorem grow_at (p : List Step) (s : Shape) (v : Val) (t : Shape) (u : Val) (g :
     (h : resolve s v p = .ok (t, u)) (m : Mem) (hm : m.bytes = encode s v) (k amt : Nat)
     (hk : k ≤ (encode t u).length) (hamt : 0 < amt) (hroom : Room m amt)
     (hbig : (encode s v).length + amt < Shape.u32Lim) :
-    ∃ G : List Nat, G.length = amt ∧
+    ∃ G : List Nat, G = ((m.bytes.drop (offsetOf s v p + k) ++ List.replicate amt 0).take amt) ∧ G.length = amt ∧
       m.addBytesN ⟨s, p⟩ (offsetOf s v p) (offsetOf s v p + k) amt
         = ({ m with grows := m.grows + 1,
                     bytes := plug s v p ((encode t u).take k ++ G ++ (encode t u).drop k) }, .ok ()) := by
   obtain ⟨A, C, hA, henc, hsp⟩ := encode_split p s v t u g h
   obtain ⟨G, hG⟩ : ∃ G, G = ((m.bytes.drop (offsetOf s v p + k) ++ List.replicate amt 0).take amt) := ⟨_, rfl⟩
   have hGl : G.length = amt := by rw [hG]; simp
-  refine ⟨G, hGl, ?_⟩
+  refine ⟨G, hG, hGl, ?_⟩
   have hle := offsetOf_le p s v t u g h
   have hraw : addBytesRaw m.bytes (offsetOf s v p + k) amt
       = splice (encode s v) (offsetOf s v p) (encode t u).length
